@@ -177,6 +177,17 @@ def replay_value(sk: Any, payloads: Dict[int, Any], idx: int, rule_label: str, e
     return True, Violation(prop, site, keys, what, dict(base, observed=what)), what
 
 
+def replay_record(rec: Dict[str, Any]) -> Tuple[bool, str]:
+    from ..rulekit import num_unjson, skel_unjson
+
+    env = {k: (Fraction(v["frac"][0], v["frac"][1]) if isinstance(v, dict) else Fraction(v)) for k, v in rec["assignment"].items()}
+    for name in "xyzw":
+        env.setdefault(name, Fraction(1))
+    pay = {int(k): v for k, v in rec["payloads"].items()}
+    ok, v, detail = replay_value(skel_unjson(rec["skeleton"]), pay, rec["node_index"], rec["rule"], env, rec.get("property") or "C01")
+    return ok, detail
+
+
 def concrete_fallback(sk: Any, idx: int, rule_label: str, prop: str, rng: random.Random, limit: int = 300):
     """Stage 3: real code on concrete payloads from a fixed pool, exact arithmetic, 3 assignments."""
     roles = slot_roles(sk)
@@ -241,6 +252,7 @@ def make_harness(sk: Any, idx: int, rule_label: str, mode: str, prop: str):
                 after = zeval_top(new_root, ctx)
             except Undefined:
                 return {"k": "undef"}
+        AXS: List[Any] = []
         names = sorted(set(variables_of(new_root)) | set(v for v in _sk_vars(sk)))
         syms = list(prov.z.values()) + [var(n) for n in names]
         queries: List[Tuple[str, List[Any]]] = []
@@ -248,7 +260,8 @@ def make_harness(sk: Any, idx: int, rule_label: str, mode: str, prop: str):
             if after[0] != "eq":
                 queries.append(("shape", []))
             else:
-                dom = before[3] + after[3] + powr_axioms(before[1], before[2], after[1], after[2])
+                dom = before[3] + after[3]
+                AXS.extend(powr_axioms(before[1], before[2], after[1], after[2]))
                 queries.append(("solset", dom + [z3.Xor(before[1] == before[2], after[1] == after[2])]))
                 # "never divides by zero": a divisor of the result that does not depend on the variables
                 # must not be zero for payloads at which the original equation is defined
@@ -259,12 +272,13 @@ def make_harness(sk: Any, idx: int, rule_label: str, mode: str, prop: str):
         else:
             if after[0] == "eq":
                 return {"k": "undef"}
-            dom = before[3] + after[3] + powr_axioms(before[1], after[1])
+            dom = before[3] + after[3]
+            AXS.extend(powr_axioms(before[1], after[1]))
             la, lb = localize(before[1], after[1])
             if la.get_id() != before[1].get_id():
                 # same context around the rewritten part: equal parts => equal wholes (the converse is
                 # not needed: a 'sat' here is re-asked on the whole expressions below)
-                r0, _ = ctx.query(*dom, la != lb)
+                r0, _ = ctx.query_lazy(dom + [la != lb], AXS)
                 if r0 == "unsat":
                     return {"k": "checked", "proved": 1, "asked": 1, "cex": [], "unknown": 0}
             queries.append(("value", dom + [before[1] != after[1]]))
@@ -272,7 +286,7 @@ def make_harness(sk: Any, idx: int, rule_label: str, mode: str, prop: str):
         uf = uses_uf(before[1]) or uses_uf(after[1]) or (before[0] == "eq" and (uses_uf(before[2]) or uses_uf(after[2])))
         for label, conds in queries:
             out["asked"] += 1
-            r, m = nice_query(ctx, conds, syms) if conds else ("sat", ctx.ensure_model())
+            r, m = nice_query(ctx, conds, syms, AXS) if conds else ("sat", ctx.ensure_model())
             if r == "unsat":
                 out["proved"] += 1
             elif r == "unknown":
